@@ -20,13 +20,27 @@ Rewrites (variant in brackets):
                     constraints) takes ONE object, the mixed shapes become nested lists), suppset (whole / event-level),
                     exptset, probset (base dro_pl only: its base form is bare arguments, the only accepted one)
   R9 [1]            ro model -> single-scenario dro model (deterministic bases: dro front end)
+
+Family ro_own_<rel>_<where> (OWN SETS): ro models (single-scenario dro twins under R9) in which robust constraints carry
+their OWN forall set, different from the default set Z0 of the worst-case objective (minmax / maxmin / minsup / maxinf):
+  rel    in    own set Z1 strictly inside Z0 (boxes)          out   Z1 strictly contains Z0 (boxes)
+         shift Z0, Z1 shifted boxes, neither contains the other
+         n1    Z0 a box, Z1 = box with a 1-norm cut            n1r   Z0 = box with a 1-norm cut, Z1 the box
+  where  f     only the FIRST constraint handed to st carries Z1      l    only the LAST one
+         a     EVERY robust constraint carries Z1 (Z0 is the set of the objective only)
+         two   the first carries Z1 and the last a third set Z2 (box | box with an equality), the others Z0
+These bases have, besides the base-versus-rewritten comparison, an ABSOLUTE reference that never touches rsome: every
+row is affine in z and every set a polytope, so the robust counterpart is the LP over the vertex lists (rsmc/ref/sets.py)
+of each row's own / default set, solved with scipy.optimize.linprog (own_reference).
 """
 import numpy as np
 from . import c09c15_common as C
+from . import sets as S
 
 VARIANTS = {'R1': ['1'], 'R2': ['v', 'c', 'vc'], 'R3': ['neg', 'flip', 'sub'], 'R4': ['1'], 'R5': ['lin', 'ninf'],
             'R6': ['loop', 'elem'], 'R7': ['2', '0.4', '2.5'], 'R8': ['args', 'gen', 'tup', 'bl', 'll', 'lb'], 'R9': ['1']}
 BASES = ['lp', 'milp', 'socp', 'ro_box', 'ro_norm', 'ro_ball', 'ro_boxeq', 'ro_zbox', 'ro_zmir', 'dro', 'dro_pl']
+# (+ the own-set family OWN_BASES below: 'def' in the quick tier, 'def' and 'eco' in the thorough tier)
 HOWS = {'lp': ['def', 'eco'], 'milp': ['def', 'ort'], 'socp': ['eco', 'grb'], 'ro_box': ['def', 'eco'], 'ro_norm': ['def', 'eco'],
         'ro_ball': ['eco'], 'ro_boxeq': ['def'], 'ro_zbox': ['def', 'eco'], 'ro_zmir': ['def'], 'dro': ['def', 'eco'], 'dro_pl': ['def']}
 NOT_APPLICABLE = {('dro', 'R9'), ('dro_pl', 'R9'), ('milp', 'R9')}
@@ -36,7 +50,7 @@ def palettes(k):
     """Four vetted value palettes (dyadic, strictly feasible, bounded)."""
     k = k % 4
     s = [1.0, 1.25, 0.75, 1.5][k]
-    return {'c': np.array([1.0, 2.0, 1.5]) * s, 'cl': np.array([1.0, -0.5, 1.5]) * s, 'u': np.array([2.0, 2.0, 2.5]),
+    return {'k': k, 'c': np.array([1.0, 2.0, 1.5]) * s, 'cl': np.array([1.0, -0.5, 1.5]) * s, 'u': np.array([2.0, 2.0, 2.5]),
             'A': np.array([[1.0, 0.0, 1.0], [-1.0, -1.0, 0.0]]), 'b': np.array([1.5 * s, -3.5]),
             'd': np.array([1.0, -0.5]) * s, 'r1': [1.5, 1.25, 1.75, 1.0][k], 'r2': [1.25, 1.0, 1.5, 0.75][k],
             'shift': [0.25, 0.5, 0.125, 0.375][k]}
@@ -457,6 +471,207 @@ def build_dro(b):
     b.finish(obj, f)
 
 
+# ---- family OWN SETS: constraints with their own forall set next to a different default set ------------------------
+OWN_RELS = ['in', 'out', 'shift', 'n1', 'n1r']
+OWN_WHERES = ['f', 'l', 'a', 'two']
+OWN_BASES = ['ro_own_%s_%s' % (r, w) for r in OWN_RELS for w in OWN_WHERES]
+OWN_ROWS = ['r0', 'L', 'r1', 'Y', 'r2']            # robust rows in the order they are handed to st
+OA = np.array([[2.0, 1.0, 1.0], [1.0, 2.0, 1.0], [1.0, 1.0, 2.0]])
+OB0 = np.array([[0.5, 0.0, 0.25], [0.0, 0.25, 0.25], [0.25, 0.0, 0.5]])
+OB1 = np.array([[0.0, 0.25, 0.0], [0.25, 0.5, 0.0], [0.0, 0.25, -0.5]])
+OBB = np.array([4.0, 4.0, 4.0])
+OG = np.array([[0.25, 0.0], [0.0, 0.25], [0.125, -0.125]])
+OWN_N1 = [1.0, 0.75, 0.875, 0.5]          # radius of the 1-norm cut per palette
+
+
+def own_parse(base):
+    _, _, rel, where = base.split('_')
+    return rel, where
+
+
+def own_sets(rel, p):
+    """The three sets (default Z0, own Z1, second own Z2) as pure data: dict(lo, hi, n1=radius|None, eq=value|None)."""
+    def box(lo, hi, n1=None, eq=None):
+        return {'lo': [float(v) for v in lo], 'hi': [float(v) for v in hi], 'n1': n1, 'eq': eq}
+    if rel == 'in':
+        return box([-1, -1], [1, 1]), box([-0.5, -0.5], [0.5, 0.5]), box([-0.75, -0.75], [0.75, 0.75])
+    if rel == 'out':
+        return box([-0.5, -0.5], [0.5, 0.5]), box([-1, -1], [1, 1]), box([-0.75, -0.75], [0.75, 0.75])
+    if rel == 'shift':
+        return box([-1, -0.5], [0.5, 1]), box([-0.5, -1], [1, 0.5]), box([-0.75, -0.75], [0.75, 0.75])
+    if rel == 'n1':
+        return box([-1, -1], [1, 1]), box([-1, -1], [1, 1], n1=OWN_N1[p['k']]), box([-1, -1], [1, 1], eq=p['shift'])
+    if rel == 'n1r':
+        return box([-1, -1], [1, 1], n1=OWN_N1[p['k']]), box([-1, -1], [1, 1]), box([-1, -1], [1, 1], eq=p['shift'])
+    raise ValueError(rel)
+
+
+def own_assign(where):
+    """Row name -> index of its set (0 = default, no forall; 1 / 2 = own set given by forall)."""
+    a = dict.fromkeys(OWN_ROWS, 0)
+    if where == 'f':
+        a['r0'] = 1
+    elif where == 'l':
+        a['r2'] = 1
+    elif where == 'a':
+        a = dict.fromkeys(OWN_ROWS, 1)
+    elif where == 'two':
+        a['r0'] = 1
+        a['r2'] = 2
+    else:
+        raise ValueError(where)
+    return a
+
+
+def own_zset(b, z, st):
+    cons = list(b.box(z, np.array(st['lo']), np.array(st['hi'])))
+    if st['n1'] is not None:
+        cons.append(b.leq(b.rso.norm(z, 1), st['n1']))
+    if st['eq'] is not None:
+        cons.extend(b.eq(z[0] + z[1], st['eq']))
+    return cons
+
+
+def build_own(b, rel, where):
+    """min_x max_{z in Z0} (-c + G z)@x + 0.5 y(z) + 0.25 z0 + 0.25 u   (y a decision rule, u a free auxiliary) s.t.
+         r_i:  (A_i + B0_i z0 + B1_i z1)@x <= 4          i = 0, 1, 2      for all z in S(r_i)
+         L:    y(z) >= d@z + 0.5 - 0.25 x0                                 for all z in S(L)
+         Y:    y(z) >= -0.5 z0 + 0.5 z1 + 0.25                             for all z in S(Y)
+         0 <= x <= 4,  x0 - x1 <= 0.75,  u - 0.5 x0 == shift
+    where S(row) is the row's own set (forall) or, without forall, the default set Z0 of the objective."""
+    p = b.p
+    sets = own_sets(rel, p)
+    asg = own_assign(where)
+    v = b.declare([('x', 'dvar', 3), ('u', 'dvar', ()), ('y', 'ldr', ()), ('z', 'rvar', 2)])
+    x, u, y, z = v['x'], v['u'], v['y'], v['z']
+    y.adapt(z)
+    fset = None
+    if b.dro_fe:
+        fset = b.m.ambiguity()
+        fset.suppset(*b.coll(own_zset(b, z, sets[0])))
+
+    def attach(con, row, aslist):
+        k = asg[row]
+        if k == 0:
+            return con                       # default set
+        b.nops += 1
+        if b.dro_fe:
+            if aslist:                       # forall(support constraints): one object
+                return con.forall(b.coll1(own_zset(b, z, sets[k])))
+            f = b.m.ambiguity()              # forall(a further ambiguity set of the same model)
+            f.suppset(*b.coll(own_zset(b, z, sets[k])))
+            b.nops += 2
+            return con.forall(f)
+        return con.forall(*b.coll(own_zset(b, z, sets[k])))
+
+    def res(i):
+        r6 = b.has('R6')
+        if r6 == 'elem':
+            e = sum(float(OA[i, j]) * x[j] for j in range(3))
+            e = e + sum(float(OB0[i, j]) * x[j] * z[0] for j in range(3) if OB0[i, j])
+            e = e + sum(float(OB1[i, j]) * x[j] * z[1] for j in range(3) if OB1[i, j])
+            return e
+        if r6 == 'loop':
+            return OA[i] @ x + (OB0[i] @ x) * z[0] + (OB1[i] @ x) * z[1]
+        return (OA[i] + OB0[i] * z[0] + OB1[i] * z[1]) @ x
+
+    d = p['d']
+    dz = d[0] * z[0] + d[1] * z[1] if b.has('R6') else d @ z
+    b.collect([attach(b.leq(res(0), float(OBB[0])), 'r0', True)])
+    b.collect([attach(b.geq(y, dz + 0.5 - 0.25 * x[0]), 'L', False)])
+    b.collect(b.box(x, np.zeros(3), np.array([4.0, 4.0, 4.0])))
+    b.collect([b.leq(x[0] - x[1], 0.75)])
+    b.collect(b.eq(u - 0.5 * x[0], p['shift']))
+    b.collect([attach(b.leq(res(1), float(OBB[1])), 'r1', False)])
+    b.collect([attach(b.geq(y, -0.5 * z[0] + 0.5 * z[1] + 0.25), 'Y', True)])
+    b.collect([attach(b.leq(res(2), float(OBB[2])), 'r2', False)])
+    c = np.array([1.25, 1.5, 1.25]) * float(p['c'][0])
+    if b.has('R6'):
+        obj = sum((-float(c[j]) + float(OG[j, 0]) * z[0] + float(OG[j, 1]) * z[1]) * x[j] for j in range(3))
+    else:
+        obj = (-c + OG[:, 0] * z[0] + OG[:, 1] * z[1]) @ x
+    obj = obj + 0.5 * y + 0.25 * z[0] + 0.25 * u
+    if b.dro_fe:
+        b.finish(obj, fset)
+    else:
+        b.finish(obj, own_zset(b, z, sets[0]))
+
+
+def own_vertices(st):
+    pieces = [{'k': 'box', 'lo': st['lo'], 'hi': st['hi']}]
+    if st['n1'] is not None:
+        pieces.append({'k': 'n1', 'c': [0.0, 0.0], 'r': float(st['n1'])})
+    if st['eq'] is not None:
+        pieces.append({'k': 'eq', 'A': [[1.0, 1.0]], 'b': [float(st['eq'])]})
+    V, eps = S.points(pieces, 2, [0.0, 0.0])
+    assert eps == 0.0 and len(V) >= 2
+    return V
+
+
+def own_lp(rel, pal, asg):
+    """Exact optimum of the model of build_own with the given row -> set assignment: LP over the vertex lists.
+    Variables [x0 x1 x2 | u | y0 | Y0 Y1 | t]; pure NumPy / SciPy."""
+    from scipy.optimize import linprog
+    p = palettes(pal)
+    V = [own_vertices(st) for st in own_sets(rel, p)]
+    d = p['d']
+    c = np.array([1.25, 1.5, 1.25]) * float(p['c'][0])
+    rows, rhs = [], []
+    for i, name in enumerate(['r0', 'r1', 'r2']):
+        for v in V[asg[name]]:
+            r = np.zeros(8)
+            r[0:3] = OA[i] + OB0[i] * v[0] + OB1[i] * v[1]
+            rows.append(r); rhs.append(OBB[i])
+    for v in V[asg['L']]:            # d@v + 0.5 - 0.25 x0 - y0 - Y@v <= 0
+        r = np.zeros(8)
+        r[0] = -0.25; r[4] = -1.0; r[5:7] = -v
+        rows.append(r); rhs.append(-(d @ v) - 0.5)
+    for v in V[asg['Y']]:            # -0.5 v0 + 0.5 v1 + 0.25 - y0 - Y@v <= 0
+        r = np.zeros(8)
+        r[4] = -1.0; r[5:7] = -v
+        rows.append(r); rhs.append(0.5 * v[0] - 0.5 * v[1] - 0.25)
+    for v in V[0]:                   # objective epigraph over the default set
+        r = np.zeros(8)
+        r[0:3] = -c + OG @ v
+        r[3] = 0.25; r[4] = 0.5; r[5:7] = 0.5 * v; r[7] = -1.0
+        rows.append(r); rhs.append(-0.25 * v[0])
+    r = np.zeros(8)
+    r[0] = 1.0; r[1] = -1.0
+    rows.append(r); rhs.append(0.75)
+    aeq = np.zeros((1, 8))
+    aeq[0, 3] = 1.0; aeq[0, 0] = -0.5
+    cost = np.zeros(8)
+    cost[7] = 1.0
+    bnds = [(0.0, 4.0)] * 3 + [(None, None)] * 5
+    out = linprog(cost, A_ub=np.array(rows), b_ub=np.array(rhs), A_eq=aeq, b_eq=[p['shift']], bounds=bnds, method='highs')
+    if out.status != 0:
+        raise RuntimeError('own-set reference LP: status %d' % out.status)
+    return float(out.fun)
+
+
+_OWN_REF = {}
+
+
+def own_reference(base, pal):
+    """(reference optimum, sensitive, smallest gap): sensitive = for EVERY resource row r_i that carries an own set,
+    replacing that set by the default set (what a library ignoring / overriding forall would do) moves the optimum
+    by more than 1e-3, and giving ALL rows the default set does so too."""
+    key = (base, pal)
+    if key not in _OWN_REF:
+        rel, where = own_parse(base)
+        asg = own_assign(where)
+        val = own_lp(rel, pal, asg)
+        gaps = []
+        for row in ('r0', 'r1', 'r2'):
+            if asg[row]:
+                alt = dict(asg)
+                alt[row] = 0
+                gaps.append(abs(own_lp(rel, pal, alt) - val))
+        gaps.append(abs(own_lp(rel, pal, dict.fromkeys(OWN_ROWS, 0)) - val))
+        _OWN_REF[key] = (val, bool(min(gaps) > 1e-3), min(gaps))
+    return _OWN_REF[key]
+
+
 def build(base, act, pal):
     b = Builder(base, act, pal)
     if base == 'lp':
@@ -467,6 +682,8 @@ def build(base, act, pal):
         build_milp(b)
     elif base in ('ro_zbox', 'ro_zmir'):
         build_roz(b, base[3:])
+    elif base.startswith('ro_own_'):
+        build_own(b, *own_parse(base))
     elif base.startswith('ro_'):
         build_ro(b, base[3:])
     elif base in ('dro', 'dro_pl'):
@@ -513,6 +730,19 @@ def run(case):
     c = C.compare_status(got, ref, tol)
     if c == 'vacuous':
         res.update(status='vacuous', outcome='solver:%s/%s' % (got[0], ref[0]), detail=detail)
+        return res
+    if base.startswith('ro_own_'):
+        # absolute oracle (vertex-list LP, SciPy): the optimum the model MEANS, with every row over its own / default set
+        val, sensitive, gap = own_reference(base, pal)
+        detail += ' ; vertex-LP reference %.6g (smallest own-versus-default gap %.3g)' % (val, gap)
+        if C.compare_status(got, ('opt', val), tol) == 'differ':
+            res.update(status='violation', sig='c15|%s|%s|%s|reference' % (base, how, tag), detail=detail)
+            return res
+        if c == 'differ':
+            res.update(status='violation', sig='c15|%s|%s|%s|value' % (base, how, tag), detail=detail)
+            return res
+        res.update(status='pass', outcome='equal+reference' if sensitive else 'equal+reference(set-insensitive)',
+                   nontrivial=bool(got[0] == 'opt' and sensitive), validated=2)
         return res
     if c == 'differ':
         res.update(status='violation', sig='c15|%s|%s|%s|value' % (base, how, tag), detail=detail)
